@@ -1053,6 +1053,30 @@ def field_wiring(ctx):
     return res
 
 
+def launch_signs(P):
+    """(sx, sy) for angular fields at an infinite object: +1 when a positive
+    H launches the bundle towards the positive axis, -1 when towards the
+    negative one, None when the launch is not at the field angle."""
+    fx = A('self.optic.fields.max_field') * A('Hx')
+    fy = A('self.optic.fields.max_field') * A('Hy')
+    ev, built, sym = _eval_gen(P, False, True, 'angle', False)
+    x0, y0, z0 = built['args'][:3]
+    E = ev.env
+    x1, y1, z1 = E.get('x1'), E.get('y1'), E.get('z1')
+    dx, dy, dz = x1 - x0, y1 - y0, z1 - z0
+    ty = sym.sin(fy * A('pi') / C(180)) / sym.cos(fy * A('pi') / C(180))
+    tx = sym.sin(fx * A('pi') / C(180)) / sym.cos(fx * A('pi') / C(180))
+    sub = 'self.optic.surface_group.positions[1]'
+
+    def z0sub(r):
+        return Rat(r.n.subst(sub, Poly()), r.d.subst(sub, Poly()))
+    sy = +1 if sym.eq(z0sub(dy), ty * z0sub(dz)) else (
+        -1 if sym.eq(z0sub(dy), -ty * z0sub(dz)) else None)
+    sx = +1 if sym.eq(z0sub(dx), tx * z0sub(dz)) else (
+        -1 if sym.eq(z0sub(dx), -tx * z0sub(dz)) else None)
+    return sx, sy
+
+
 def xy_exchange(ctx):
     """a rotationally symmetric lens answers the request (Hx, Hy, Px, Py) =
     (a, b, c, d) with the mirror image (x <-> y) of its answer to
